@@ -111,6 +111,8 @@ def run(ctx):
     coq = vp_coq.full_check("C01", ctx, fams=("kick", "fp", "run", "round"))
     nk = 120 if ctx.quick() else 3000
     cases = kc.gen_cases(ctx, nk) + farshift_cases(ctx, 24 if ctx.quick() else 400) + kc.with_rng(ctx, 101, kc.edge_cases, ctx, 52 if ctx.quick() else 800)
+    # (family st3kick) probe stream: filling patterns with empty buckets over explicit data, stale caches, pre-filled target, clamp flag
+    cases += kc.with_rng(ctx, 103, kc.probe_cases, ctx, 36 if ctx.quick() else 600)
     res = kc.run_cases(ctx, cases)
     dis = []
     for c in cases:
@@ -118,6 +120,7 @@ def run(ctx):
         if d:
             dis.append(dict(case=c.replay(), detail=d[:3], sig=dict(kind="kick", stage="correspondence", dir=c.dir, multibunch=c.nb > 1)))
         oracle_conservation(ctx, c, res[c.cid])
+        kc.oracle_cache_independent(ctx, c, res[c.cid])
     ctx.sample(cases[0].describe())
     ctx.sample(cases[-1].describe())
     fcases = fc.gen_cases(ctx, 160 if ctx.quick() else 2400)
